@@ -80,6 +80,9 @@ path_seg = st.one_of(
     st.text(alphabet="abcXYZ019-._~", min_size=1, max_size=6),
     st.text(alphabet="&=+%;: ab@!$'()*,é☃\U0001F600", min_size=1, max_size=6),
     st.text(min_size=1, max_size=6).map(lambda s: "".join(c for c in s if _ok_path_char(c) and c != "/")).filter(bool),
+    # text that looks like a percent-escape is still literal text of the path
+    st.sampled_from(["50%25 off", "a%2Fb.txt", "%C3%A9té", "%41", "%zz%20", "%%30", "x%3f", "%2525"]),
+    st.text(alphabet="%25aAfF0", min_size=2, max_size=6),
 )
 path = st.lists(path_seg, min_size=0, max_size=4).flatmap(
     lambda segs: st.booleans().map(lambda trail: "/" + "/".join(segs) + ("/" if trail and segs else "")))
